@@ -33,12 +33,23 @@ impl Message for HMsg {
 pub trait Numbered: Message {
     fn number(&self) -> u32;
     fn finish(self);
+    /// what the handler does with this (decodable) message: 0 = handles it, 1 = panics, 2 = returns Err
+    fn fail_mode(&self) -> u8 {
+        0
+    }
 }
 impl Numbered for PMsg {
     fn number(&self) -> u32 {
         match self {
             PMsg::Tick(n) | PMsg::Text(n, _) | PMsg::Boom(n, _) | PMsg::Ask(n, _) => *n,
             PMsg::Unit => 0,
+        }
+    }
+    fn fail_mode(&self) -> u8 {
+        match self {
+            PMsg::Text(_, t) if t == "PANIC" => 1,
+            PMsg::Text(_, t) if t == "ERR" => 2,
+            _ => 0,
         }
     }
     fn finish(self) {
@@ -94,12 +105,27 @@ impl<M: Numbered> Actor for DProbe<M> {
         Ok(())
     }
     async fn handle(&self, _: ActorRef<M>, m: M, _: &mut ()) -> Result<(), ActorProcessingErr> {
-        cb("handle", Some(m.number()));
-        m.finish();
-        Ok(())
+        match m.fail_mode() {
+            0 => {
+                cb("handle", Some(m.number()));
+                m.finish();
+                Ok(())
+            }
+            mode => {
+                // a decodable message whose handler fails: that is a handler failure like any other (the actor ends),
+                // whatever form the message arrived in
+                obs("obs.cb_enter", 0, vec![kvs("k", "handle"), kvi("m", m.number() as i64)]);
+                obs("obs.tick", 0, vec![]);
+                obs("obs.cb_exit", 0, vec![kvs("k", "handle"), kvs("o", if mode == 1 { "panic" } else { "err" })]);
+                if mode == 1 {
+                    panic!("handler panics");
+                }
+                Err("handler fails".into())
+            }
+        }
     }
 }
-pub const GOOD_P: &[&str] = &["tick", "text", "ask", "boom_ok"];
+pub const GOOD_P: &[&str] = &["tick", "text", "ask", "boom_ok", "tick", "text", "text_hpanic", "text_herr"];
 pub const BAD_P: &[&str] = &["unknown", "short", "shortdata", "trailing", "panic", "convpanic", "hugelen", "callreply", "badcall", "unit_extra", "empty"];
 pub const GOOD_H: &[&str] = &["h_ok"];
 pub const BAD_H: &[&str] = &["h_err", "h_panic", "h_short"];
@@ -116,6 +142,8 @@ pub fn payload(kind: &str, n: u32) -> SerializedMessage {
     match kind {
         "tick" => cast("Tick", pack(&nb)),
         "text" => cast("Text", cat(pack(&nb), pack("h\u{e9}llo".as_bytes()))),
+        "text_hpanic" => cast("Text", cat(pack(&nb), pack("PANIC".as_bytes()))),
+        "text_herr" => cast("Text", cat(pack(&nb), pack("ERR".as_bytes()))),
         "boom_ok" => cast("Boom", cat(pack(&nb), pack(&[1]))),
         "ask" => {
             let (tx, _rx) = ractor::concurrency::oneshot();
@@ -286,6 +314,8 @@ pub fn batch(out: &str, tier: &str, seed: u64) -> Value {
     for k in BAD_P {
         plans.push(Plan { hand: false, kinds: vec!["tick", k, "text", k, "ask"], senders: 1 });
         plans.push(Plan { hand: false, kinds: vec![k, "tick"], senders: 2 });
+        plans.push(Plan { hand: false, kinds: vec!["tick", k, "text_hpanic", "tick"], senders: 1 });
+        plans.push(Plan { hand: false, kinds: vec![k, "text_herr", k, "tick"], senders: 2 });
     }
     for k in BAD_H {
         plans.push(Plan { hand: true, kinds: vec!["h_ok", k, "h_ok", k, "h_ok"], senders: 1 });
